@@ -53,6 +53,7 @@ class DepEval:
     def __init__(self, lp, op):
         self.lp, self.op = lp, op
         self.busy = set()
+        self.stale = []
 
     def denotes(self, e):
         """args / kwargs-values coverage of an iterable expression"""
@@ -82,6 +83,9 @@ class DepEval:
         if isinstance(e, ast.Name):
             defs = [n for n in walk_shallow(self.lp) if isinstance(n, ast.Assign) and len(n.targets) == 1 and isinstance(n.targets[0], ast.Name) and n.targets[0].id == e.id]
             if len(defs) == 1:
+                if defs[0] not in self.lp.body:
+                    # bound on some paths of the iteration only: on the others the name still holds what an earlier iteration left in it
+                    self.stale.append((e.id, defs[0]))
                 return defs[0].value
         return e
 
@@ -157,6 +161,18 @@ class DepEval:
                             out |= set().union(*[self.ev(a) for a in n.args])
                         else:
                             out.add("other")
+                # is the name bound anew in every iteration?  (a plain binding at the top level of the loop body, or in both branches of
+                # a conditional there)
+                def binds(stmts):
+                    for s_ in stmts:
+                        if isinstance(s_, ast.Assign) and any(isinstance(t_, ast.Name) and t_.id == e.id for t_ in s_.targets):
+                            return True
+                        if isinstance(s_, ast.If) and s_.orelse and binds(s_.body) and binds(s_.orelse):
+                            return True
+                    return False
+                plain = [n for n in walk_shallow(self.lp) if isinstance(n, ast.Assign) and any(isinstance(t_, ast.Name) and t_.id == e.id for t_ in n.targets)]
+                if plain and not binds(self.lp.body):
+                    self.stale.append((e.id, plain[0]))
                 return out if found else {"other"}
             finally:
                 self.busy.discard(e.id)
@@ -201,6 +217,16 @@ def c16_1(rep, ix, f, sh):
         while isinstance(it, ast.Call) and u(it.func) in ("sorted", "list", "tuple") and it.args:
             it = it.args[0]
         sh.setdefault("dep_exprs", []).append(it)
+    seen_stale = set()
+    for name, d_ in D.stale:
+        if name in seen_stale:
+            continue
+        seen_stale.add(name)
+        from ..py.guards import path_to
+        conds = [" ".join(u(st[i_].test).split()) for (st, i_, fld) in (path_to(lp.body, d_) or []) if isinstance(st[i_], ast.If)]
+        rep.bad(R, ix.site(f, d_), "every name that enters the dependency set is computed anew for each operation",
+                "`%s` is bound only under `%s`: for an operation where that does not hold it still carries the wires of an earlier operation" % (name, " and ".join(conds)[:80] or "a condition"),
+                key="stale|" + name)
     # each wire once: the collection is a set (so an operation is not placed twice on a wire)
     for what, l in loops:
         it = l.iter
@@ -271,6 +297,12 @@ def c16_2(rep, ix, f, sh):
         fwd = (a0, a1) == ("%s[%s][0]" % (cm, i), "%s[%s + 1][0]" % (cm, i))
         rev = (a1, a0) == ("%s[%s][0]" % (cm, i), "%s[%s + 1][0]" % (cm, i))
         verdict = True if fwd else (False if rev else None)
+    elif isinstance(l.target, ast.Tuple) and len(l.target.elts) == 2 and projection_pairs(gl[0], cm, l.iter) is not None:
+        # consecutive pairs of the list of index components of the wire: W = [i for i, _ in cmds]; zip(W, W[1:])
+        p, c = u(l.target.elts[0]), u(l.target.elts[1])
+        fwd = (a0, a1) == (p, c)
+        rev = (a0, a1) == (c, p)
+        verdict = True if fwd else (False if rev else None)
     elif " ".join(u(l.iter).split()) in ("zip(%s, %s[1:])" % (cm, cm), "zip(%s[:-1], %s[1:])" % (cm, cm), "pairwise(%s)" % cm, "itertools.pairwise(%s)" % cm) \
             and isinstance(l.target, ast.Tuple) and len(l.target.elts) == 2:
         def index_of(t):
@@ -285,6 +317,29 @@ def c16_2(rep, ix, f, sh):
         raise Inconclusive("to_DiGraph: add_edge arguments `%s` in loop `%s` outside the idiom set" % (u(e), u(l.iter)))
     rep.check(verdict, R, ix.site(f, e), "every edge joins the index components of two consecutive entries of one wire list, earlier -> later (hence forward, acyclic, per-wire program order)",
               "got `%s` in loop `for %s in %s`" % (u(e), u(l.target), u(l.iter)), key="edge")
+
+
+def projection_pairs(wire_loop, cm, it):
+    """`it` iterates the consecutive pairs of W, a local bound once in the wire loop to the list of index components of the wire list `cm`
+    ([i for i, _ in cm] / [c[0] for c in cm]); returns W or None"""
+    t = " ".join(u(it).split())
+    import re as _re
+    m = _re.fullmatch(r"zip\((\w+), (\w+)\[1:\]\)", t) or _re.fullmatch(r"zip\((\w+)\[:-1\], (\w+)\[1:\]\)", t) or _re.fullmatch(r"(?:itertools\.)?pairwise\((\w+)\)()", t)
+    if not m or (m.group(2) and m.group(1) != m.group(2)):
+        return None
+    W = m.group(1)
+    binds = [n for n in ast.walk(wire_loop) if isinstance(n, ast.Assign) and any(isinstance(x, ast.Name) and x.id == W for t_ in n.targets for x in ast.walk(t_))]
+    if len(binds) != 1 or binds[0] not in wire_loop.body or not isinstance(binds[0].value, ast.ListComp) or len(binds[0].value.generators) != 1:
+        return None
+    g = binds[0].value.generators[0]
+    if " ".join(u(g.iter).split()) != cm or g.ifs:
+        return None
+    elt = " ".join(u(binds[0].value.elt).split())
+    if isinstance(g.target, ast.Tuple) and g.target.elts and elt == u(g.target.elts[0]):
+        return W
+    if isinstance(g.target, ast.Name) and elt == "%s[0]" % g.target.id:
+        return W
+    return None
 
 
 def c16_2_frontier(rep, ix, f, sh):
